@@ -64,6 +64,16 @@ def c14_4(facts, res, rule="C14-4"):
                 why.append("not guarded by get(id) > 0")
         else:
             why.append("expected exactly one Vec::%s" % vop)
+        if name in ("insert_after", "insert_before") and vc:
+            # a node that is moved still has its old key: it is dropped before the reference position is looked up and before
+            # the new key is inserted (otherwise the table holds two keys for the node and get() answers the old one)
+            succ = e1.cfg(facts, f)
+            dom, _ = e1.dominators(succ)
+            rm = [bi for bi, t in facts.mir_calls(f) if t.get("callee") and facts.callee_name(t["callee"]) == "xml_info::DocumentOrder::remove"]
+            gets = [bi for bi, t in facts.mir_calls(f) if t.get("callee") and facts.callee_name(t["callee"]) == "xml_info::DocumentOrder::get"]
+            if not rm or not all(any(r in dom[x] for r in rm) for x in [vc[0][0]] + gets):
+                ok = False
+                why.append("the old key of the node is not removed (DocumentOrder::remove) before the position is looked up and the new key inserted")
         res.oblige(1, ok)
         res.sample({"rule": rule, "fn": f["path"], "index": "get(id)%+d" % off, "verdict": "ok" if ok else why})
         if not ok:
